@@ -16,9 +16,13 @@ SPEC = {
         "(C29_readDir_lists_tree); `..` never escapes; Open returns exactly "
         "the entry at the end of the symlink chain for every sufficient fuel (C29_open_follows_chain, "
         "C29_open_fuel_independent) and terminates whenever the chain ends (C29_open_ok_no_loop); absolute targets fail "
-        "cleanly; ReadDir(n<=0) lists exactly the directory. PARTIAL: five clauses of the statement are false on the pinned code, each with a "
-        "kernel-checked witness and a narrow known-finding class: every symlink cycle, of any length, exhausts every fuel "
-        "(C29_open_diverges_on_any_cycle; fatal stack overflow in Go), ReadDir(n>0) has no offset (never io.EOF), Open accepts names fs.ValidPath rejects, Stat does not follow "
+        "cleanly; ReadDir(n<=0) lists exactly the directory. REPAIRED in /repo and now proved in full: symlink loops of any "
+        "length fail with a clean error under the extracted depth limit (C29_open_loop_fails_cleanly, C29_open_never_diverges; "
+        "fix c137312) and ReadDir pages as io/fs.ReadDirFile demands (C29_readDir_paging; fix 53c5c31); the old behaviours "
+        "survive as negative controls (C29_unlimited_open_diverges_*, C29_stateless_readDir_violates_paging). A view with a "
+        "working directory is a prefix and nothing more (C29_view_is_root_join: link resolution is root-relative). PARTIAL: "
+        "three clauses remain false, each with a kernel-checked witness and a narrow known-finding class: Open accepts names "
+        "fs.ValidPath rejects, Stat does not follow "
         "symlinks while Open does, paths through a symlinked directory are not resolved."
     ),
     "technique": "Lean 4 theorems over an executable model of findNode/open/ReadDir (fuel for the unbounded recursion, "
